@@ -139,6 +139,47 @@ func ruleFinalize(c *Ctx) *RuleResult {
 					fromExtract = true
 				}
 			}
+			// every normal return is behind the finalisers, unless the context is not an
+			// isolated one (the false edge of the GCPolicy test)
+			skipped := ""
+			{
+				seen := map[*ssa.BasicBlock]bool{cc.Blocks[0]: true}
+				q := []*ssa.BasicBlock{cc.Blocks[0]}
+				for len(q) > 0 && skipped == "" {
+					b := q[0]
+					q = q[1:]
+					if b == runFin.Block() {
+						continue
+					}
+					if _, ok := b.Instrs[len(b.Instrs)-1].(*ssa.Return); ok && (cc.Recover == nil || b != cc.Recover) {
+						skipped = p.InstrPos(b.Instrs[len(b.Instrs)-1])
+						break
+					}
+					for i, sc := range b.Succs {
+						if iff, ok := b.Instrs[len(b.Instrs)-1].(*ssa.If); ok && i == 1 {
+							// the policy test: not an isolated context, nothing to finalise here
+							isPolicy := false
+							for v := range backSlice(iff.Cond, true) {
+								if call, ok := v.(*ssa.Call); ok && calleeNamed(call, "GCPolicy") {
+									isPolicy = true
+								}
+							}
+							if isPolicy {
+								continue
+							}
+						}
+						if !seen[sc] {
+							seen[sc] = true
+							q = append(q, sc)
+						}
+					}
+				}
+			}
+			if skipped != "" {
+				r.fail("callcontext-finalizers-skipped", skipped, "CallContext can return without running the finalisers of an isolated context (other than when the context is not isolated): on that path — e.g. when the protected function ends with an error — the values marked in the context are dropped with its pool and their __gc handlers never run, not even when the runtime closes")
+			} else {
+				r.ok("(c) every normal return of CallContext is behind runFinalizers for an isolated context")
+			}
 			if fromExtract {
 				r.ok("(c) CallContext runs runFinalizers(ExtractAllMarkedFinalize()) on its normal path")
 			} else {
